@@ -60,8 +60,8 @@ def run_games(games_dict):
             rewards_min_reach = 0
             logging.info("\n" + "="*160 + "\n")
             name = name if prune_states else name + "_no_prune"
-            game["prune_states"] = prune_states
             game_copy = copy.deepcopy(game)
+            game_copy["prune_states"] = prune_states
             logging.info(f"Running example: {name}")
             start = time.time()
             sgame = StochasticGame(**game_copy)
